@@ -84,6 +84,8 @@ ObsInit(cfg) ==
     walw   |-> [b \in BusNames(cfg) |-> <<>>],     \* events whose WAL line was appended on b, in order
     walf   |-> {},                                 \* <<b,e>> whose WAL write failed (injected I/O fault)
     now    |-> 0,
+    nl     |-> 0,                                  \* number of lines folded so far
+    lastln |-> <<>>,                               \* the last line (without its state diffs); lets a model behaviour be read back as a trace
     wit    |-> {},
     cnt    |-> [g \in Groups |-> 0] ]
 
@@ -544,7 +546,7 @@ StepCore(cfg, o, o0, ln) ==
               [] ln.a = "WalFault" -> StepWalFault(cfg, o0, ln)
               [] ln.a = "End"      -> StepEnd(cfg, o0, ln)
               [] OTHER             -> o0
-  IN AfterEvery(cfg, o, o1, ln)
+  IN [AfterEvery(cfg, o, o1, ln) EXCEPT !.nl = @ + 1, !.lastln = [x \in (DOMAIN ln) \ {"evs", "hist", "q", "reg"} |-> ln[x]]]
 
 Step(cfg, o, ln) ==
   StepCore(cfg, o, [o EXCEPT !.snap = ApplyEvs(@, ln.evs), !.ety = ApplyTys(@, ln.evs), !.hist = ApplyPairs(@, ln.hist),
